@@ -364,6 +364,11 @@ func (f *Fn) canon(e ast.Expr, depth int, busy map[types.Object]bool) string {
 			if !ok {
 				return x.Name
 			}
+			if st := f.Root().store; st != nil && d.expr != nil && d.kind != defParam && f.mentionsStored(d.expr, st, 0) {
+				// the local was defined before the path started from an expression whose variables were
+				// assigned again on this path: its value is the one at definition time, not the expansion's
+				return x.Name
+			}
 			busy[o] = true
 			defer delete(busy, o)
 			switch d.kind {
@@ -566,6 +571,41 @@ func (f *Fn) constNames(e ast.Expr, depth int) ([]string, bool) {
 	}
 	sort.Strings(out)
 	return out, true
+}
+
+// mentionsStored: e reads (directly or through single-definition locals) a variable that the current
+// path store holds, i.e. one that was assigned on the path being enumerated.
+func (f *Fn) mentionsStored(e ast.Expr, st map[types.Object]ast.Expr, depth int) bool {
+	found := false
+	ast.Inspect(e, func(n ast.Node) bool {
+		if found {
+			return false
+		}
+		if _, isLit := n.(*ast.FuncLit); isLit {
+			return false
+		}
+		id, ok := n.(*ast.Ident)
+		if !ok {
+			return true
+		}
+		v, ok := f.Info().Uses[id].(*types.Var)
+		if !ok || v.IsField() {
+			return true
+		}
+		if _, in := st[v]; in {
+			found = true
+			return false
+		}
+		if depth < 4 {
+			if d, ok := f.SingleDef(v); ok && d.expr != nil && d.kind != defParam {
+				if f.mentionsStored(d.expr, st, depth+1) {
+					found = true
+				}
+			}
+		}
+		return true
+	})
+	return found
 }
 
 // Roles rewrites canonical strings: every occurrence of a key of roles is replaced by its value
